@@ -42,9 +42,13 @@ type sndCase struct {
 	done     atomic.Bool
 	panicked atomic.Bool
 	writeOK  atomic.Bool
-	dials    atomic.Int64 // times the ConnFactory has been entered
-	cancel   context.CancelFunc
-	ctxDone  bool
+	// every other switch to failing writes makes them fail the way a write deadline does (the model does not
+	// distinguish the two: a failed write is a failed write)
+	timeoutErr atomic.Bool
+	wFails     int
+	dials      atomic.Int64 // times the ConnFactory has been entered
+	cancel     context.CancelFunc
+	ctxDone    bool
 }
 
 type fakeConn struct{ c *sndCase }
@@ -54,8 +58,18 @@ func (f *fakeConn) Write(b []byte) (int, error) {
 	if f.c.writeOK.Load() {
 		return len(b), nil
 	}
+	if f.c.timeoutErr.Load() {
+		return 0, timeoutError{}
+	}
 	return 0, errors.New("scripted write error")
 }
+
+// timeoutError is what a write past its deadline returns (a net.Error whose Timeout() is true).
+type timeoutError struct{}
+
+func (timeoutError) Error() string                     { return "scripted write: i/o timeout" }
+func (timeoutError) Timeout() bool                     { return true }
+func (timeoutError) Temporary() bool                   { return true }
 func (f *fakeConn) Close() error                       { return nil }
 func (f *fakeConn) LocalAddr() net.Addr                { return nil }
 func (f *fakeConn) RemoteAddr() net.Addr               { return nil }
@@ -255,6 +269,10 @@ func (c *sndCase) inject(ev string) (ok bool, err error) {
 			return false, nil
 		}
 	case ev == "W+" || ev == "W-":
+		if ev == "W-" {
+			c.wFails++
+			c.timeoutErr.Store(c.wFails%2 == 1)
+		}
 		c.writeOK.Store(ev == "W+")
 		c.mu.Lock()
 		open := []*sndStream{}
